@@ -58,6 +58,9 @@ func (cs ClientState) Initialize(
 	state exported.ConsensusState,
 ) error {
 	header := cs.Header
+	if err := checkConsensusRoot(header, state); err != nil {
+		return err
+	}
 	headerBytes, err := cdc.MarshalInterface(&header)
 	if err != nil {
 		return sdkerrors.Wrap(ErrInvalidGenesisBlock, "marshal consensus to interface failed")
@@ -74,12 +77,26 @@ func (cs ClientState) UpgradeState(
 	state exported.ConsensusState,
 ) error {
 	header := cs.Header
+	if err := checkConsensusRoot(header, state); err != nil {
+		return err
+	}
 	headerBytes, err := cdc.MarshalInterface(&header)
 	if err != nil {
 		return sdkerrors.Wrap(clienttypes.ErrUpgradeClient, "marshal consensus to interface failed")
 	}
 	SetEthHeaderIndex(store, header, headerBytes)
 	SetEthConsensusRoot(store, header.Height.RevisionHeight, header.ToEthHeader().Root, header.Hash())
+	return nil
+}
+
+// checkConsensusRoot: the header installed with a client state is indexed under ITS state root, and the consensus
+// state the keeper stores for it is looked up by the CONSENSUS STATE's root when it is pruned
+// (deleteConsensusStateAndIndexHeader). With two different roots that lookup fails and every later update of the
+// client is refused as soon as the installed consensus state has outlived the trusting period.
+func checkConsensusRoot(header Header, state exported.ConsensusState) error {
+	if state == nil || common.BytesToHash(state.GetRoot()) != header.ToEthHeader().Root {
+		return sdkerrors.Wrap(clienttypes.ErrInvalidConsensus, "consensus state root differs from the state root of the client state's header")
+	}
 	return nil
 }
 
